@@ -101,6 +101,8 @@ def cli_case(task):
         text = srcs[0][1]
         sel = scen["sel"]
         args = ["--lst"]
+        if any(s_["k"] == "asciic" and any("u" in c for c in s_["cs"]) for f in rec["files"] for s_ in f):
+            args += ["--charset", "utf-8"]          # non-ASCII quoted text ("u" chunks) is specified for the UTF-8 output charset
 
         def path_of(o, keep=None, ext=None):
             name = o["stem"]
